@@ -1,0 +1,128 @@
+//go:build verif
+
+package snappy
+
+// Add-only export file for the verification harness in /verif (build tag
+// "verif").  Nothing here is compiled into normal builds.
+
+import (
+	"io"
+	"unsafe"
+
+	"github.com/klauspost/compress/snappy"
+)
+
+// VerifXW is a handle on a xerialWriter whose residual state the harness chose.
+type VerifXW struct{ x *xerialWriter }
+
+// VerifNewXW builds a xerialWriter as it could sit in writerPool: an input
+// buffer of the given capacity holding the given residual bytes, a byte
+// counter, a framing flag, an output buffer of the given capacity.
+func VerifNewXW(inputCap int, residual []byte, nbytes int64, framed bool, outputCap int) *VerifXW {
+	x := &xerialWriter{nbytes: nbytes, framed: framed, encode: snappy.Encode}
+	if inputCap > 0 {
+		if len(residual) > inputCap {
+			residual = residual[:inputCap]
+		}
+		x.input = make([]byte, len(residual), inputCap)
+		copy(x.input, residual)
+	}
+	if outputCap > 0 {
+		x.output = make([]byte, outputCap/2, outputCap)
+	}
+	copy(x.header[:], "residual-header!")
+	return &VerifXW{x}
+}
+
+// Pool empties writerPool and puts the object in it.
+func (h *VerifXW) Pool() { VerifDrainPools(); writerPool.Put(h.x) }
+
+func (h *VerifXW) ID() uintptr { return uintptr(unsafe.Pointer(h.x)) }
+
+// State: cap(input), len(input), nbytes.
+func (h *VerifXW) State() (int, int, int64) { return cap(h.x.input), len(h.x.input), h.x.nbytes }
+
+// VerifXWOf returns a handle on the object a writer made by Codec.NewWriter holds (nil after Close).
+func VerifXWOf(w io.WriteCloser) *VerifXW {
+	if p, ok := w.(*writer); ok && p.xerialWriter != nil {
+		return &VerifXW{p.xerialWriter}
+	}
+	return nil
+}
+
+// VerifXR is a handle on a xerialReader whose residual state the harness chose.
+type VerifXR struct{ x *xerialReader }
+
+func VerifNewXR(header [16]byte, input, output []byte, offset, nbytes int64) *VerifXR {
+	x := &xerialReader{header: header, offset: offset, nbytes: nbytes, decode: snappy.Decode}
+	if input != nil {
+		x.input = append(make([]byte, 0, len(input)+7), input...)
+	}
+	if output != nil {
+		x.output = append(make([]byte, 0, len(output)+5), output...)
+	}
+	return &VerifXR{x}
+}
+
+func (h *VerifXR) Pool() { VerifDrainPools(); readerPool.Put(h.x) }
+
+func (h *VerifXR) ID() uintptr { return uintptr(unsafe.Pointer(h.x)) }
+
+// Clean reports whether the object is in the state Reset leaves behind.
+func (h *VerifXR) Clean() bool {
+	x := h.x
+	return x.header == [16]byte{} && len(x.input) == 0 && len(x.output) == 0 && x.offset == 0 && x.nbytes == 0 && x.reader == nil
+}
+
+func VerifXROf(r io.ReadCloser) *VerifXR {
+	if p, ok := r.(*reader); ok && p.xerialReader != nil {
+		return &VerifXR{p.xerialReader}
+	}
+	return nil
+}
+
+// VerifDrainPools empties both pools.
+func VerifDrainPools() {
+	for readerPool.Get() != nil {
+	}
+	for writerPool.Get() != nil {
+	}
+}
+
+// VerifObj: identity of the pooled object behind a reader/writer made by this
+// package (0 when it holds none).
+func VerifObj(v interface{}) uintptr {
+	switch p := v.(type) {
+	case *reader:
+		return uintptr(unsafe.Pointer(p.xerialReader))
+	case *writer:
+		return uintptr(unsafe.Pointer(p.xerialWriter))
+	}
+	return 0
+}
+
+// WrapEncode makes the writer report every (block, encoded block) pair it
+// produces; the encoder itself is unchanged.  (NewWriter sets encode again on
+// the next use of the object.)
+func (h *VerifXW) WrapEncode(rec func(block, chunk []byte)) {
+	orig := h.x.encode
+	h.x.encode = func(dst, src []byte) []byte {
+		out := orig(dst, src)
+		rec(src, out)
+		return out
+	}
+}
+
+// WrapDecode makes the reader report every (chunk, decoded block, error) it
+// decodes; the decoder itself is unchanged.
+func (h *VerifXR) WrapDecode(rec func(chunk, block []byte, err error)) {
+	orig := h.x.decode
+	h.x.decode = func(dst, src []byte) ([]byte, error) {
+		out, err := orig(dst, src)
+		rec(src, out, err)
+		return out, err
+	}
+}
+
+// UnwrapDecode restores the package's decoder (pooled readers keep their decode field).
+func (h *VerifXR) UnwrapDecode() { h.x.decode = snappy.Decode }
